@@ -207,6 +207,8 @@ def produce(state: Any, out: Any, ctx: Any) -> None:
         out.emit(batch_of(m["out_cols"], act["rows"]), metadata=act.get("meta") or None)
         if act.get("finish"):
             out.finish()
+        else:
+            _emit_logs(st.get("late_logs", []), out.client_log, ctx.client_log)  # a log written AFTER the data batch
         return
     if act["op"] == "nothing":
         return
@@ -239,10 +241,12 @@ def exchange(state: Any, inp: Any, out: Any, ctx: Any) -> None:
         return
     if act["op"] == "emit":
         out.emit(batch_of(m["out_cols"], act["rows"]), metadata=act.get("meta") or None)
+        _emit_logs(r.get("late_logs", []), out.client_log, ctx.client_log)  # a log written AFTER the data batch
         return
     if act["op"] == "echo_input":
         # zero-copy pass-through: the output shares the input's buffers, possibly in another column order
         out.emit(inp.batch.select([c["name"] for c in m["out_cols"]]))
+        _emit_logs(r.get("late_logs", []), out.client_log, ctx.client_log)
         return
     if act["op"] == "echo_len":
         cols = m["out_cols"]
@@ -253,6 +257,7 @@ def exchange(state: Any, inp: Any, out: Any, ctx: Any) -> None:
                 {"int64": n, "float64": float(n), "utf8": str(n), "binary": str(n).encode(), "bool": n > 0, "dict_utf8": str(n), "dict_int64": n}[c["type"]]
             ]
         out.emit(batch_of(cols, rows if cols else 1))
+        _emit_logs(r.get("late_logs", []), out.client_log, ctx.client_log)
         return
     if act["op"] == "nothing":
         return
